@@ -41,6 +41,9 @@ type FnExec struct {
 	topHeld  []heldLock
 	acqState *State
 	retPos   []token.Pos
+	dynFn     *SV            // function value of the dynamic call whose contract is being applied ($fn)
+	retOrd    []int          // source-order ordinal (1-based) of each recorded return site
+	retIndex  map[*ssa.Return]int
 	callCount map[string]int // ordinal of the most recent call site per callee name
 	callDyn   map[string]int
 	callOrd   map[string]map[token.Pos]int
@@ -511,7 +514,8 @@ func (fx *FnExec) execBlock(b *ssa.BasicBlock, st *State, loop *loopInfo) {
 			fx.rets = append(fx.rets, st)
 			fx.retVals = append(fx.retVals, rv)
 			fx.retPos = append(fx.retPos, in.Pos())
-			if fx.isTop && !(fx.con != nil && fx.con.DeadReturns[len(fx.rets)]) {
+			fx.retOrd = append(fx.retOrd, fx.returnOrdinal(in))
+			if fx.isTop && !(fx.con != nil && fx.con.DeadReturns[fx.returnOrdinal(in)]) {
 				if o := e.addObl("reach", fmt.Sprintf("return:%s", e.exprText(fx.fn, in.Pos())), e.autoTags("reach", fx.fn), st, "true", in.Pos()); o != nil {
 					o.Reach = true
 					o.Static = ""
@@ -1813,4 +1817,38 @@ func (e *Engine) fpConvFuns() string {
 	c.axiom("fp:positive", "(forall ((b!q (_ FloatingPoint 11 53))) (! (=> (and (fp.geq b!q ((_ to_fp 11 53) RNE 1.0)) (fp.lt b!q ((_ to_fp 11 53) RNE 9223372036854775808.0))) (>= (f2i64 b!q) 1)) :pattern ((f2i64 b!q))))", "f2i64")
 	e.noteFeature("int64<->float64 conversions are uninterpreted with the axioms mono/finite/zero/sandwich/positive, each proved as a QF_FPBV lemma (contracts/lemmas/fp_*.smt2); transfer between the Int and the 64-bit vector reading of int64 is trusted")
 	return "i2f64"
+}
+
+// returnOrdinal numbers the function's return instructions in source order (1-based; returns without a position last).
+func (fx *FnExec) returnOrdinal(r *ssa.Return) int {
+	if fx.retIndex == nil {
+		fx.retIndex = map[*ssa.Return]int{}
+		type ent struct {
+			r   *ssa.Return
+			pos token.Pos
+			blk int
+		}
+		var es []ent
+		for _, b := range fx.fn.Blocks {
+			for _, in := range b.Instrs {
+				if rr, ok := in.(*ssa.Return); ok {
+					p := rr.Pos()
+					if !p.IsValid() {
+						p = token.Pos(1 << 40)
+					}
+					es = append(es, ent{rr, p, b.Index})
+				}
+			}
+		}
+		sort.Slice(es, func(i, j int) bool {
+			if es[i].pos != es[j].pos {
+				return es[i].pos < es[j].pos
+			}
+			return es[i].blk < es[j].blk
+		})
+		for i, x := range es {
+			fx.retIndex[x.r] = i + 1
+		}
+	}
+	return fx.retIndex[r]
 }
